@@ -89,6 +89,32 @@ IntTyped(t, ctx) ==
     [] t.k = "fact" -> IntTyped(t.c, ctx) /\ NonNeg(t.c, ctx)
     [] t.k \in {"add", "sub", "mul"} -> IntTyped(t.l, ctx) /\ IntTyped(t.r, ctx)
     [] OTHER -> FALSE
+(* ---- exact rational view over big integers: every int and every float is an exact rational (a float is fn / fd, a dyadic
+        fraction shipped by the harness), closed under + - * / neg abs. Used for equations between non-integer sides: when the
+        exact values of the two sides differ by more than 2^-40 relative - far beyond what rounding in a handful of operations
+        can bridge - the computed sides differ too and the equation must raise. ---- *)
+XQ(n, d) == [ok |-> TRUE, n |-> n, d |-> d]
+NoXQ == [ok |-> FALSE]
+BAbsX(x) == [s |-> IF x.s = 0 THEN 0 ELSE 1, m |-> x.m]
+LeafXQ(x) == IF x.ty = "int" THEN XQ(x.b, BigOf(1)) ELSE IF "fn" \in DOMAIN x THEN XQ(x.fn, x.fd) ELSE NoXQ
+RECURSIVE ExactQ(_,_)
+ExactQ(t, ctx) ==
+  CASE t.k = "c" -> LeafXQ(t)
+    [] t.k = "v" -> (LET bd == Binding(ctx, t.id) IN IF bd.st = "bound" THEN LeafXQ(bd) ELSE NoXQ)
+    [] t.k = "neg" -> (LET c == ExactQ(t.c, ctx) IN IF c.ok THEN XQ(BNeg(c.n), c.d) ELSE NoXQ)
+    [] t.k = "abs" -> (LET c == ExactQ(t.c, ctx) IN IF c.ok THEN XQ(BAbsX(c.n), c.d) ELSE NoXQ)
+    [] t.k \in {"add", "sub", "mul", "div"} -> (LET a == ExactQ(t.l, ctx)  b == ExactQ(t.r, ctx) IN
+          IF ~a.ok \/ ~b.ok THEN NoXQ ELSE
+          CASE t.k = "add" -> XQ(BAdd(BMul(a.n, b.d), BMul(b.n, a.d)), BMul(a.d, b.d))
+            [] t.k = "sub" -> XQ(BSub(BMul(a.n, b.d), BMul(b.n, a.d)), BMul(a.d, b.d))
+            [] t.k = "mul" -> XQ(BMul(a.n, b.n), BMul(a.d, b.d))
+            [] OTHER -> IF b.n.s = 0 THEN NoXQ ELSE (IF b.n.s < 0 THEN XQ(BNeg(BMul(a.n, b.d)), BNeg(BMul(a.d, b.n))) ELSE XQ(BMul(a.n, b.d), BMul(a.d, b.n))))
+    [] OTHER -> NoXQ
+EqFarApart(t, ctx) ==
+  t.k = "eq" /\ (LET a == ExactQ(t.l, ctx)  b == ExactQ(t.r, ctx) IN a.ok /\ b.ok /\
+     (LET x == BMul(a.n, b.d)  y == BMul(b.n, a.d)
+          big == IF BCmp(BAbsX(x), BAbsX(y)) >= 0 THEN BAbsX(x) ELSE BAbsX(y) IN
+      BCmp(BMul(BAbsX(BSub(x, y)), BPow(BigOf(2), 40)), big) > 0))
 (* ---- forward error bound: the magnitude of the computation (every operation on absolute values) ---- *)
 RECURSIVE MagVal(_,_)
 MagVal(t, ctx) ==
